@@ -22,7 +22,10 @@ class TrackObs(Observer):
         # spacer grids as given in the input (positions, loss coefficient or
         # None for a correlation), not as the cloned regions recorded them
         self.grid_truth = None
+        self.gravity = bool(reactor._options.get('include_gravity'))
         if case is not None:
+            self.gravity = bool(case.get('setup', {}).get(
+                'include_gravity_head_loss', False))
             self.grid_truth = []
             for a in reactor.assemblies:
                 sg = case['types'][a.name].get('SpacerGrid')
@@ -86,8 +89,7 @@ class TrackObs(Observer):
                   if reg._rr_equiv is not None else reg._params['de'])
             cF = p['ff'] * dz * rho * p['vel'] ** 2 / 2 / de
         # gravity as requested in the input, not as the region believes
-        cG = rho * 9.80665 * dz if self.r._options.get('include_gravity') \
-            else 0.0
+        cG = rho * 9.80665 * dz if self.gravity else 0.0
         self.F[ai] += dF
         self.S[ai] += dS
         self.G[ai] += dG
